@@ -201,6 +201,14 @@ class Model(object):
                     Outcome((s,), [], close=True, why='message outside a session: connection closed')]
 
         hdr = {'bad_marker': 1, 'bad_len': 2, 'bad_type': 3}
+        if kind == 'bad_len' and len(ev) >= 3 and ev[1] == 2:
+            # an UPDATE shorter than 23 octets is a malformed UPDATE body for this agent: tolerated in Established (C10);
+            # elsewhere an UPDATE is out of place anyway - ignoring it, Bad Message Length and FSM error are all accepted
+            if s == 'ESTABLISHED':
+                return [Outcome((s,), [], why='short UPDATE tolerated like any malformed UPDATE body')]
+            return [Outcome((s,), [], why='short UPDATE ignored'),
+                    Outcome(IDLE, [N(1, 2)], close=True, apply=idle_err, why='BGPHeaderErr'),
+                    Outcome(IDLE, [N(5)], close=True, apply=idle_err, why='UPDATE outside Established')]
         if kind in hdr:
             outs = [Outcome(IDLE, [N(1, hdr[kind])], close=True, apply=idle_err, why='BGPHeaderErr')]
             if s == 'ESTABLISHED':
